@@ -17,21 +17,31 @@ func VerifC16_LockCache() {
 	paths := []string{p0, "dir/b.bin", "c d.bin"}
 	ids := []string{id0, "id-2", "id-3"}
 	held := map[string]bool{}
+	cur := []string{ids[0], ids[1], ids[2]} // the id under which each path is currently locked
+	gen := 0
 	steps := verifBound("steps", 3, 5)
 	for s := 0; s < steps; s++ {
 		k := verifChoose("object", len(paths))
-		switch verifChoose("op", 3) {
+		switch verifChoose("op", 4) {
 		case 0:
-			c.Add(Lock{Id: ids[k], Path: paths[k]})
+			c.Add(Lock{Id: cur[k], Path: paths[k]})
 			held[paths[k]] = true
 		case 1:
 			c.RemoveByPath(paths[k])
 			delete(held, paths[k])
 		case 2:
-			c.RemoveById(ids[k])
+			c.RemoveById(cur[k])
 			delete(held, paths[k])
+		case 3:
+			// the lock was released on the server by someone else and is taken
+			// again: same path, new id (the cache is not told about the release)
+			gen++
+			cur[k] = "relock-" + string(rune('0'+gen)) + "-" + string(rune('a'+k))
+			c.Add(Lock{Id: cur[k], Path: paths[k]})
+			held[paths[k]] = true
 		}
 	}
+	ids = cur
 	locks := c.Locks()
 	verifCover("sequence")
 	verifAssert(len(locks) == len(held), "the cache lists exactly the locks that are held")
